@@ -494,6 +494,7 @@ func main() {
 		"pairs_measured_individually":        total.Remeasured,
 		"largest_individual_allocation":      total.MaxAlloc,
 		"largest_ratio_within_bound":         total.MaxRatio,
+		"largest_ratio_within_bound_at":      total.MaxRatioAt,
 		"recv_recovered_panics":              total.Recovered,
 		"longest_packet_bytes":               total.MaxLen,
 		"evaluations_by_entry_class":         total.ByClass,
@@ -613,7 +614,7 @@ wait:
 			a := w.announced()
 			if a[shmBeat] != lastBeat {
 				lastBeat, lastChange = a[shmBeat], time.Now()
-			} else if a[shmPhase] != 0 && time.Since(lastChange) > backstop(a[shmLen], 2) {
+			} else if a[shmPhase] != 0 && time.Since(lastChange) > backstop(a[shmLen], 6) {
 				w.quitAndKill()
 				d = w.reap(true)
 				break wait
